@@ -38,7 +38,7 @@ def tla_set(xs):
 
 
 def gen_cfg(types, ops=ALL_OPS, unary=("neg", "not", "cast"), stmts=(), lits=(0, 2), litmax=True,
-            wide=False, nodes=5, stack=3, locals_=1, params=2, frames=1, minnodes=0):
+            wide=False, nodes=5, stack=3, locals_=1, params=2, frames=1, minnodes=0, chain=()):
     return """SPECIFICATION GSpec
 CONSTANTS
   Types = %s
@@ -54,9 +54,10 @@ CONSTANTS
   MaxParams = %d
   MaxFrames = %d
   MinNodes = %d
+  ChainK = %s
 CHECK_DEADLOCK FALSE
 """ % (tla_set(types), tla_set(ops), tla_set(unary), tla_set(stmts), tla_set(lits),
-       "TRUE" if litmax else "FALSE", "TRUE" if wide else "FALSE", nodes, stack, locals_, params, frames, minnodes)
+       "TRUE" if litmax else "FALSE", "TRUE" if wide else "FALSE", nodes, stack, locals_, params, frames, minnodes, tla_set(chain))
 
 
 # ----------------------------------------------------------------------------- register model
@@ -348,6 +349,9 @@ def plans(tier, seed):
         P.append(("stmt8-i8", dict(types=["i8"], ops=["-", "/", "<"], unary=(), nodes=8, stack=2,
                                    stmts=("let", "set", "cset", "if"), lits=(2,), litmax=False, params=1,
                                    locals_=1, frames=1), None))
+        # if / else-if chains with 1..3 `else if` clauses: every combination of returning / falling-through blocks,
+        # with and without else, statements after the chain, arguments selecting every branch (chain mode)
+        P.append(("chain", dict(types=["u8", "i16"], chain=(1, 2, 3)), None))
         # ... and seeded samples of longer bodies: control-flow heavy (few leaves) and mixed
         P.append(("ctl-sim", dict(types=["u8"], ops=["<", "+"], unary=(), stmts=("let", "set", "if"), nodes=22,
                                   stack=2, locals_=1, params=2, frames=2, lits=(0, 2), litmax=False, minnodes=13),
@@ -373,6 +377,7 @@ def plans(tier, seed):
                        ("u16", ["-", "*", "/", "=="])):
             P.append(("expr8-" + t, dict(types=[t], ops=ops, unary=(), nodes=8, stack=3, lits=(2,), litmax=False,
                                          params=2), None))
+        P.append(("chain", dict(types=["u8", "i8", "i16", "u16", "i32"], chain=(1, 2, 3)), None))
         P.append(("ctl12-u8", dict(types=["u8"], ops=["<"], unary=(), nodes=12, stack=2, stmts=("set", "if"),
                                    lits=(0,), litmax=False, params=2, locals_=1, frames=2), None))
         P.append(("ctl-sim", dict(types=["u8", "i8"], ops=["<", "+", "-"], unary=("cast",), stmts=("let", "set", "cset", "if"),
